@@ -31,7 +31,7 @@ def check(run):
     R = run
     R.rule('C10.shared', 'objects created once per class / per function definition (class-level attributes, parameter '
            'defaults) are only read: no buffer, validator, poll object, header list or option dict is shared between '
-           'connections', 2)
+           'connections', 1)
     from .common import shared_state
     shared_state(R, 'C10.shared')
     R.rule('C10.gate', 'every normal return of on_response passed the status/Upgrade/Accept-present/Accept-equal '
